@@ -9,6 +9,8 @@ package main
 // completeness is lost): `unsat` of the ground query implies `unsat` of the original; `sat` means nothing.
 
 import (
+	"fmt"
+	"os"
 	"sort"
 )
 
@@ -173,10 +175,23 @@ func candidates(roots []*Term, limit int) map[*Sort][]*Term {
 	for _, r := range roots {
 		rec(r)
 	}
+	isSk := func(t *Term) bool { return t.IsVar && len(t.Op) > 3 && t.Op[:3] == "sk." }
 	for s, ts := range out {
-		sort.SliceStable(ts, func(i, j int) bool { return termWeight(ts[i]) < termWeight(ts[j]) })
-		if len(ts) > limit {
-			ts = ts[:limit]
+		sort.SliceStable(ts, func(i, j int) bool {
+			si, sj := isSk(ts[i]), isSk(ts[j])
+			if si != sj {
+				return si
+			}
+			return termWeight(ts[i]) < termWeight(ts[j])
+		})
+		nsk := 0
+		for _, t := range ts {
+			if isSk(t) {
+				nsk++
+			}
+		}
+		if len(ts) > limit+nsk {
+			ts = ts[:limit+nsk]
 		}
 		out[s] = ts
 	}
@@ -192,6 +207,203 @@ func termWeight(t *Term) int {
 		}
 	}
 	return n
+}
+
+// ---- linear arithmetic helpers for matching index patterns ----
+
+type linForm struct {
+	coef  map[*Term]int64
+	atoms []*Term
+	c     int64
+	ok    bool
+}
+
+func linOf(t *Term) linForm {
+	lf := linForm{coef: map[*Term]int64{}, ok: true}
+	var rec func(t *Term, k int64)
+	rec = func(t *Term, k int64) {
+		switch {
+		case t.IsConst && t.Sort.Kind == SInt:
+			if !t.Int.IsInt64() {
+				lf.ok = false
+				return
+			}
+			lf.c += k * t.Int.Int64()
+		case t.Op == "+" && !t.IsVar && !t.IsApp:
+			for _, a := range t.Args {
+				rec(a, k)
+			}
+		case t.Op == "-" && len(t.Args) == 2 && !t.IsVar && !t.IsApp:
+			rec(t.Args[0], k)
+			rec(t.Args[1], -k)
+		case t.Op == "-" && len(t.Args) == 1 && !t.IsVar && !t.IsApp:
+			rec(t.Args[0], -k)
+		default:
+			if _, ok := lf.coef[t]; !ok {
+				lf.atoms = append(lf.atoms, t)
+			}
+			lf.coef[t] += k
+		}
+	}
+	rec(t, 1)
+	return lf
+}
+
+// linBuild rebuilds a term from a linear form.
+func linBuild(lf linForm) *Term {
+	var r *Term
+	for _, a := range lf.atoms {
+		k := lf.coef[a]
+		if k == 0 {
+			continue
+		}
+		var part *Term
+		switch {
+		case k == 1:
+			part = a
+		case k == -1:
+			part = Neg(a)
+		default:
+			part = Mul(IntC(k), a)
+		}
+		if r == nil {
+			r = part
+		} else if k == -1 {
+			r = Sub(r, a)
+		} else {
+			r = Add(r, part)
+		}
+	}
+	if r == nil {
+		return IntC(lf.c)
+	}
+	if lf.c != 0 {
+		r = Add(r, IntC(lf.c))
+	}
+	return r
+}
+
+// solveFor returns x such that pattern(x) == g, for patterns linear in x with coefficient 1.
+func solveFor(pattern, x, g *Term) *Term {
+	lp := linOf(pattern)
+	if !lp.ok || lp.coef[x] != 1 {
+		return nil
+	}
+	lg := linOf(g)
+	if !lg.ok {
+		return nil
+	}
+	// x = g - (pattern - x)
+	res := linForm{coef: map[*Term]int64{}, ok: true, c: lg.c - lp.c}
+	for _, a := range lg.atoms {
+		res.coef[a] += lg.coef[a]
+		res.atoms = append(res.atoms, a)
+	}
+	for _, a := range lp.atoms {
+		if a == x {
+			continue
+		}
+		if _, ok := res.coef[a]; !ok {
+			res.atoms = append(res.atoms, a)
+		}
+		res.coef[a] -= lp.coef[a]
+	}
+	n := 0
+	for _, a := range res.atoms {
+		if res.coef[a] != 0 {
+			n++
+		}
+	}
+	if n > 3 {
+		return nil
+	}
+	return linBuild(res)
+}
+
+// indexPatterns finds index positions in body whose only bound variable is x.
+func indexPatterns(body, x *Term) []*Term {
+	var out []*Term
+	seen := map[int]bool{}
+	var onlyX func(t *Term) (hasX bool, other bool)
+	onlyX = func(t *Term) (bool, bool) {
+		if t == x {
+			return true, false
+		}
+		if t.IsBound {
+			return false, true
+		}
+		hx, ot := false, false
+		for _, a := range t.Args {
+			h, o := onlyX(a)
+			hx = hx || h
+			ot = ot || o
+		}
+		return hx, ot
+	}
+	var rec func(t *Term)
+	rec = func(t *Term) {
+		if seen[t.ID] {
+			return
+		}
+		seen[t.ID] = true
+		if (t.Op == "select" || t.Op == "store") && t.Args[1].Sort.Kind == SInt {
+			if h, o := onlyX(t.Args[1]); h && !o {
+				out = append(out, t.Args[1])
+			}
+		}
+		for _, a := range t.Args {
+			rec(a)
+		}
+	}
+	rec(body)
+	return out
+}
+
+// groundIndexTerms collects the Int-sorted index arguments of selects/stores in ground position.
+func groundIndexTerms(roots []*Term, limit int) []*Term {
+	var out []*Term
+	seen := map[int]bool{}
+	have := map[int]bool{}
+	var hasBoundVar func(t *Term) bool
+	bmemo := map[int]bool{}
+	hasBoundVar = func(t *Term) bool {
+		if v, ok := bmemo[t.ID]; ok {
+			return v
+		}
+		r := t.IsBound
+		for _, a := range t.Args {
+			if hasBoundVar(a) {
+				r = true
+			}
+		}
+		bmemo[t.ID] = r
+		return r
+	}
+	var rec func(t *Term)
+	rec = func(t *Term) {
+		if seen[t.ID] {
+			return
+		}
+		seen[t.ID] = true
+		if t.Op == "forall" || t.Op == "exists" {
+			return
+		}
+		if (t.Op == "select" || t.Op == "store") && t.Args[1].Sort.Kind == SInt && !hasBoundVar(t.Args[1]) && !have[t.Args[1].ID] {
+			have[t.Args[1].ID] = true
+			out = append(out, t.Args[1])
+		}
+		for _, a := range t.Args {
+			rec(a)
+		}
+	}
+	for _, r := range roots {
+		rec(r)
+	}
+	sort.SliceStable(out, func(i, j int) bool { return termWeight(out[i]) < termWeight(out[j]) })
+	if len(out) > limit {
+		out = out[:limit]
+	}
+	return out
 }
 
 // Instantiate returns a quantifier-free weakening of the asserted formulas.
@@ -211,6 +423,7 @@ func Instantiate(asserts []*Term, rounds int) []*Term {
 	flush()
 	for r := 0; r < rounds; r++ {
 		cands := candidates(ground, 20)
+		gidx := groundIndexTerms(ground, 40)
 		progress := false
 		n := len(in.order)
 		for ui := 0; ui < n; ui++ {
@@ -222,10 +435,42 @@ func Instantiate(asserts []*Term, rounds int) []*Term {
 			var lists [][]*Term
 			ok := true
 			for i := 0; i < nb; i++ {
-				c := cands[u.q.Args[i].Sort]
+				x := u.q.Args[i]
+				var c []*Term
+				if x.Sort.Kind == SInt {
+					if pats := indexPatterns(u.q.Args[nb], x); len(pats) > 0 {
+						have := map[int]bool{}
+						for _, p := range pats {
+							for _, g := range gidx {
+								if cand := solveFor(p, x, g); cand != nil && !have[cand.ID] {
+									have[cand.ID] = true
+									c = append(c, cand)
+								}
+							}
+						}
+						for _, sk := range cands[x.Sort] {
+							if sk.IsVar && len(sk.Op) > 3 && sk.Op[:3] == "sk." && !have[sk.ID] {
+								have[sk.ID] = true
+								c = append(c, sk)
+							}
+						}
+						if len(c) > 40 {
+							c = c[:40]
+						}
+					}
+				}
+				if c == nil {
+					c = cands[x.Sort]
+				}
 				if len(c) == 0 {
 					ok = false
 					break
+				}
+				if nb >= 2 && len(c) > 14 {
+					c = c[:14]
+				}
+				if nb >= 3 && len(c) > 6 {
+					c = c[:6]
 				}
 				lists = append(lists, c)
 			}
@@ -269,6 +514,18 @@ func Instantiate(asserts []*Term, rounds int) []*Term {
 			}
 		}
 		flush()
+		if os.Getenv("VCGEN_DEBUG_INST") != "" {
+			fmt.Fprintf(os.Stderr, "inst round %d: %d quantifiers, %d instances, %d ground idx, pools:", r, len(in.order), in.nInst, len(gidx))
+			for s, c := range cands {
+				fmt.Fprintf(os.Stderr, " %s=%d", s, len(c))
+			}
+			fmt.Fprintln(os.Stderr)
+			for _, u := range in.order {
+				if u.needUni {
+					fmt.Fprintf(os.Stderr, "   %s nb=%d inst=%d\n", u.name.Op, u.q.NBind, len(u.done))
+				}
+			}
+		}
 		if !progress {
 			break
 		}
